@@ -10,7 +10,7 @@ VERIF = os.path.dirname(os.path.dirname(os.path.abspath(__file__)))
 REPO = os.environ.get("VERIF_REPO", "/repo")
 CACHE = os.environ.get("VERIF_CACHE", os.path.join(VERIF, ".cache"))
 TOOLS = os.path.join(CACHE, "tools")
-TARGET = os.path.join(CACHE, "target")
+TARGET = os.environ.get("VERIF_TARGET", os.path.join(CACHE, "target"))
 FACTS = os.path.join(CACHE, "facts")
 
 HASH_ROOTS = ["crates", "relay-crates", "libs/isograph-react/src/core", "libs/isograph-babel-plugin"]
@@ -207,7 +207,7 @@ def prune(keep, n=8):
             shutil.rmtree(p, ignore_errors=True)
 
 
-WITNESS_TARGET = os.path.join(CACHE, "witness-target")
+WITNESS_TARGET = os.path.join(os.environ["VERIF_TARGET"] + "-witness") if os.environ.get("VERIF_TARGET") else os.path.join(CACHE, "witness-target")
 
 
 def ensure_witness(facts_dir):
@@ -225,6 +225,15 @@ def ensure_witness(facts_dir):
             shutil.rmtree(out)
         os.makedirs(out)
         wdir = os.path.join(VERIF, "witness")
+        if os.path.realpath(REPO) != "/repo":
+            # self-tests analyse a scratch copy: the witness crate must depend on that copy, not on /repo
+            wcopy = os.path.join(out, "crate")
+            shutil.copytree(wdir, wcopy, ignore=shutil.ignore_patterns("Cargo.lock", "target"))
+            with open(os.path.join(wcopy, "Cargo.toml")) as fh:
+                toml = fh.read().replace('"/repo/', '"%s/' % os.path.realpath(REPO))
+            with open(os.path.join(wcopy, "Cargo.toml"), "w") as fh:
+                fh.write(toml)
+            wdir = wcopy
         shutil.copy(os.path.join(REPO, "Cargo.lock"), os.path.join(wdir, "Cargo.lock"))
         drv = tool_path("mirfacts")
         fp = os.path.join(WITNESS_TARGET, "debug", ".fingerprint")
